@@ -564,6 +564,16 @@ func (c *Cluster) AddTemplate(id string, t *corev1.PodTemplateSpec) {
 
 // StdTemplate builds the standard template of identity id: selects nodes labelled fit-<id>=yes.
 func StdTemplate(id string) *corev1.PodTemplateSpec {
+	if id == "D" {
+		// template D is template A's shape with a namespace left in its metadata (a copied manifest): legal, and meaningless -
+		// the pods belong to the namespace of their ExtendedDaemonSet whatever the template says
+		t := StdTemplate("A")
+		t.Namespace = "ns2"
+		t.Labels["rev"], t.Annotations["checksum/config"] = "D", "cfg-D"
+		t.Spec.NodeSelector = map[string]string{FitLabelPrefix + "D": "yes"}
+		t.Spec.Containers[0].Image, t.Spec.Containers[1].Image = "img:D", "side:D"
+		return t
+	}
 	if id == "C" {
 		// template C expresses its node requirement as a required node affinity with two OR-ed terms (instead of a node
 		// selector) and tolerates a taint nobody sets: the affinity paths of the fitness check and of the pod pinning
